@@ -50,7 +50,8 @@ NESTED = ["e.jets.Select(lambda j: f(j, e))", "g(lambda q: q > e)", "e.jets.Sele
           "e.jets.Select(lambda j: g(lambda q: (q, j)))", "f(e)", "(e, e.x)"]
 DESIGNED = ["(e.x, e.y)[2]", "(e.x, e.y)[e.i]", "(e.x, e.y)[-1]", "(e.x, e.y)['a']", "(e.x,)[1.5]",
             "{'a': e.x}['b']", "{'a': e.x}.b", "1 if e.x else 's'", "e.x if e.c else (e.y, 1)",
-            "(e.x, e.y)[0:1]", "(e.x, e.y)[True]"]
+            "(e.x, e.y)[0:1]", "(e.x, e.y)[True]", "(e.x, e.y)[-2]", "(e.x, e.y)[-3]",
+            "(e.x,)[-2]", "f((e.x, e.y)[-5])"]
 # subscripts of a dictionary literal whose key is only known at run time: passed through
 DICT_DYNAMIC = ["{'a': e.x}[e.i]", "{'a': e.x}[1:2]", "{'a': e.x}[(e.i, 1)]", "{'a': e.x}[-e.i]",
                 "{'a': e.x, 'b': e.y}[e.k][0]", "({'value': e.id})[1:2]", "{'a': e.x}[f(e)]",
@@ -96,7 +97,7 @@ def is_designed_refusal(body, op, msg):
             s = n.slice
             if not (isinstance(s, ast.Constant) and isinstance(s.value, int)):
                 return True
-            if s.value >= len(n.value.elts):
+            if s.value >= len(n.value.elts) or s.value < -len(n.value.elts):
                 return True
         if isinstance(n, ast.Subscript) and isinstance(n.value, ast.Dict):
             if isinstance(n.slice, ast.Constant) and all(isinstance(k, ast.Constant) for k in n.value.keys) \
@@ -120,9 +121,27 @@ def where_body_is_boolean(body):
     return isinstance(body, (ast.Compare, ast.BoolOp))
 
 
+class _FoldNeg(ast.NodeTransformer):
+    """-3 written in source is UnaryOp(USub, 3); a lambda handed over as an AST may hold the
+    constant -3 itself"""
+
+    def visit_UnaryOp(self, node):
+        self.generic_visit(node)
+        if isinstance(node.op, ast.USub) and isinstance(node.operand, ast.Constant) \
+                and type(node.operand.value) in (int, float):
+            return ast.copy_location(ast.Constant(-node.operand.value), node)
+        return node
+
+
+def fold_neg(tree):
+    return ast.fix_missing_locations(_FoldNeg().visit(tree))
+
+
 def judge(t, op, how, src, outcome, rp):
     lam_src = f"lambda e: {src}"
     want = ast.parse(lam_src, mode="eval").body
+    if how == "ast-folded":
+        want = fold_neg(want)
     t.contract(f"{op}: emitted lambda == given lambda, or a designed ValueError")
     if outcome[0] == "err":
         ex = outcome[1]
@@ -163,10 +182,14 @@ def run(t):
     for i, src in enumerate(exprs):
         lam = f"lambda e: {src}"
         for op in ("Select", "SelectMany", "Where"):
-            for how in ("str", "ast"):
+            hows = ("str", "ast", "ast-folded") if "[-" in src or "(-" in src or " -" in src \
+                else ("str", "ast")
+            for how in hows:
                 key = f"C10:{op}:{how}:{src}"
                 t.case(key, any(c in src for c in "([+-<>"), sample=f"{op}({lam}) as {how}")
                 arg = lam if how == "str" else ast.parse(lam, mode="eval").body
+                if how == "ast-folded":
+                    arg = fold_neg(arg)
                 try:
                     outcome = ("ok", getattr(ds, op)(arg))
                 except Exception as ex:
